@@ -1717,6 +1717,26 @@ Proof.
   unfold e0, env_of_bits. rewrite Nat2N.id. reflexivity.
 Qed.
 
+(* the generated gate list itself: single assignment and defined before use
+   (no hypothesis beyond cg_wf_tg: both are proved along with the semantics) *)
+Theorem circuitgen_structure tg thr p : cg_wf_tg tg p = true ->
+  let c := circuit_of_ssa_gen multiplierArrayTresholds thr tg p in
+  wfc_b (N.of_nat (cc_ninp c)) (cc_gates c) = true /\ dbu (N.of_nat (cc_ninp c)) (cc_gates c).
+Proof.
+  intros WF. cbv zeta. unfold circuit_of_ssa_gen.
+  set (n := total_bits (sp_inputs p)).
+  assert (Hn : (1 <= n)%nat).
+  { unfold cg_wf_tg, cg_wf in WF. apply andb_true_iff in WF. destruct WF as [WF' _].
+    apply andb_true_iff in WF'. destruct WF' as [H _]. apply Nat.leb_le in H. exact H. }
+  assert (WS : wfst (N.of_nat n) (st0 (N.of_nat n) tg)) by (apply wfst_st0; lia).
+  assert (SK : @oks (N.of_nat n) _ (cg_prog multiplierArrayTresholds thr p) (st0 (N.of_nat n) tg) (fun _ _ => True)).
+  { apply (cg_prog_s (N.of_nat n) tg); auto. apply Forall_forall. intros l Hl. apply Forall_forall. intros w Hw.
+    apply defd_input. pose proof (input_wires_lt _ _ _ _ Hl Hw). fold n in H. lia. }
+  destruct (run_st0 (N.of_nat n) (N.of_nat n) tg _ _ _ (okm_cg_prog tg thr p [] WF) SK (fun _ => false))
+    as (outs & s' & E & C & D & _).
+  rewrite E. cbn [cc_ninp cc_gates]. split; assumption.
+Qed.
+
 Lemma cg_wf_tg_false p : cg_wf_tg false p = cg_wf p.
 Proof.
   unfold cg_wf_tg. replace (forallb (ok_tg false) (sp_code p)) with true; [apply andb_true_r|].
